@@ -186,6 +186,88 @@ func TestC03(t *testing.T) {
 		}
 		synctest.Test(t, func(t *testing.T) { c03Run(t, run, sc) })
 	}
+	for k := 0; k < run.N(24, 800); k++ {
+		desc := map[string]any{"idx": k, "kind": "two-commands-around-one-request"}
+		if !run.Mine(n+k, desc) {
+			continue
+		}
+		synctest.Test(t, func(t *testing.T) { c03Double(t, run, k, run.Rand(n+k)) })
+	}
+}
+
+// c03Double: one request straddles two commands. It passes the gate of the running service and
+// lingers before its claim; a pause takes effect meanwhile, so the claim is declined and the request
+// goes back to the gate; resume lets it pass the gate a second time, it lingers again, and a second
+// pause (or stop) completes before it claims. That second command has returned: nothing may reach
+// the targets until the final resume.
+func c03Double(t *testing.T, run *Run, idx int, rng *rand.Rand) {
+	w := NewWorld(t, WorldOpt{})
+	defer w.Close()
+	run.Eval()
+	const svc = "svc"
+	nt := 1 + rng.IntN(2)
+	var names []string
+	for i := 0; i < nt; i++ {
+		names = append(names, fmt.Sprintf("dbl%d-t%d:80", idx%5, i))
+		w.AddTarget(names[i], nil)
+	}
+	if c := w.Deploy(svc, names, DefSO, DefTO, 5*time.Second, time.Second); c.Err != "" {
+		run.Inconclusive("setup failed: %s", c.Err)
+		return
+	}
+	second := pick(rng, []string{"pause", "stop"})
+	linger := time.Duration(25+rng.IntN(15))*time.Millisecond + OffHook
+	T := time.Second
+	nreq := 2 + rng.IntN(5)
+	for k := 0; k < nreq; k++ {
+		id := fmt.Sprintf("d%d", k)
+		w.SetReqDelay(id, "service.gate.passed", linger)
+		w.GoReq(T+time.Duration(rng.IntN(8))*time.Millisecond+OffArrival, Req{ID: id, Host: "c03.example", Path: "/w"})
+	}
+	var first, again, final *CmdRec
+	w.At(T+10*time.Millisecond, func() { first = w.Pause(svc, time.Second, 100*time.Second) })
+	w.At(T+50*time.Millisecond, func() { w.Resume(svc) })
+	w.At(T+60*time.Millisecond, func() {
+		if second == "pause" {
+			again = w.Pause(svc, time.Second, 100*time.Second)
+		} else {
+			again = w.Stop(svc, time.Second, "down")
+		}
+	})
+	w.At(T+10*time.Second, func() { final = w.Resume(svc) })
+	w.Wait()
+	fail := func(sig, format string, a ...any) {
+		run.Violate(sig, fmt.Sprintf(format, a...), map[string]any{"idx": idx, "second": second, "linger": linger, "requests": nreq}, func() []string { return w.Trace(200) })
+	}
+	if first == nil || again == nil || final == nil || first.Err != "" || again.Err != "" {
+		run.Inconclusive("commands did not complete")
+		return
+	}
+	reached := 0
+	for _, name := range names {
+		for _, q := range w.Target(name).ReqLog() {
+			if q.Recv > first.Ret && q.Recv < T+50*time.Millisecond {
+				fail("sent-after-return:pause:first-pass", "request %s reached %s at %v, after the first pause had returned at %v", q.ID, name, q.Recv, first.Ret)
+				return
+			}
+			if q.Recv > again.Ret && q.Recv < final.Issue {
+				fail("sent-after-return:"+second+":second-pass", "request %s passed the gate twice (pause at %v, resume, %s returned at %v) and reached %s at %v, before the final resume at %v", q.ID, first.Issue, second, again.Ret, name, q.Recv, final.Issue)
+				return
+			}
+			reached++
+		}
+	}
+	passes := 0
+	for _, h := range w.Hooks {
+		if h.Point == "service.gate.passed" {
+			passes++
+		}
+	}
+	if passes < 2*nreq {
+		run.Count("double_pass_not_reached", 1)
+		return
+	}
+	run.Class(fmt.Sprintf("double|%s|nt%d|reqs%d", second, nt, nreq))
 }
 
 func c03Run(t *testing.T, run *Run, sc c03Scenario) {
